@@ -274,3 +274,11 @@ Proof.
   destruct b; [|apply IH]. constructor; [apply IH|].
   apply Forall_forall. intros p Hp. apply true_positions_in in Hp. lia.
 Qed.
+
+Lemma mask_layout bs ps j r bits k :
+  (j < length ps -> r < bs -> nth (j * bs + r) (blocks bs ps) 0 = nth j ps 0 * bs + r)
+  /\ (forall p, In p (true_positions k bits) <-> (k <= p /\ nth (p - k) bits false = true))
+  /\ StronglySorted lt (true_positions k bits).
+Proof.
+  split; [apply blocks_layout|split; [intros; apply true_positions_in|apply true_positions_sorted]].
+Qed.
